@@ -1012,7 +1012,7 @@ def m_writerow(eng, st, recv, args, kwargs, node):
 def m_prettyprinter(eng, st, args, kwargs, node):
     if "width" not in kwargs or "stream" not in kwargs:
         raise Unsupported("PrettyPrinter without width= / stream= (line %d)" % node.lineno)
-    return st.alloc(HObj("PrettyPrinter", {"width": kwargs["width"], "stream": kwargs["stream"]}))
+    return st.alloc(HObj("PrettyPrinter", {"_width": kwargs["width"], "stream": kwargs["stream"]}))
 
 
 def m_pprint(eng, st, recv, args, kwargs, node):
@@ -1026,7 +1026,7 @@ def m_pprint(eng, st, recv, args, kwargs, node):
     if not isinstance(v, VLabel):
         raise Unsupported("pprint of %r" % (v,))
     str_len(eng, v.t)
-    w = eng.as_int(o.fields["width"])
+    w = eng.as_int(o.fields["_width"])
     many = z3.Int(fresh_name("pplines"))
     eng.axioms.append(many >= 2)
     lines_add(eng, st, z3.If(STRLEN(v.t) + 2 + STRNL(v.t) <= w, 1, many), node)
